@@ -59,6 +59,7 @@ func (p PtrV) IsNil() bool { return p.C == nil && p.Sym == nil }
 type SliceV struct {
 	Arr           *Cell // array cell; nil for nil slice
 	Off, Len, Cap int
+	SymLen        *Term // non-nil: a slice whose only observable is its (symbolic) length
 }
 
 type MapEntry struct {
@@ -368,6 +369,9 @@ func (s StringV) Concrete() (string, bool) {
 
 // sliceCells returns the cells of a slice's visible window.
 func (s SliceV) cells() []*Cell {
+	if s.SymLen != nil {
+		panic(&pathEnd{endUnsupported, "contents of a length-only slice used"})
+	}
 	if s.Arr == nil {
 		return nil
 	}
